@@ -1053,21 +1053,34 @@ class World:
         if not self.held:
             return
         es = self.held[:2] + self.held[-1:]
+        variant = (fmt >> 1) % 4
         fmt %= 2
         if fmt == 1 and self.kind != 'autoref':
             fmt = 0
         p = os.path.join(os.getcwd(), 'rt_op' + ['.p', '.json'][fmt])
         roots = [e.ref for e in es]
+        as_dict = variant in (1, 3)
+        if as_dict:
+            roots = {f'r{k_}': r_ for k_, r_ in enumerate(roots)}
+        kw = {}
+        if fmt == 0 and variant >= 2:
+            kw = dict(levels=False)
         with self.quiet():
             self.api.dump(p, roots=roots)
             try:
-                back = self.api.load(p)
+                back = self.api.load(p, **kw)
             finally:
                 os.remove(p)
         require(len(back) == len(es), 'file_roundtrip.length')
+        if as_dict:
+            require(list(back) == list(roots), 'file_roundtrip.keys',
+                    dict(got=list(back)))
+            back = [back[k_] for k_ in roots]
         for r, e in zip(back, es):
             self.hold(r, e.t, 1)
+        roots = back = None
         self.label('file_roundtrip')
+        self.nontrivial.add('file_roundtrip')
 
     REPEATABLE = {'apply', 'not', 'ite', 'funcop', 'quantify', 'let_const',
                   'let_rename', 'let_compose', 'cube', 'var', 'add_expr',
@@ -1277,6 +1290,7 @@ class World:
         e = src.held[i % len(src.held)]
         supp = [src.U[j] for j in sorted(tt.support(e.t, src.n))]
         missing = [x for x in supp if x not in dst.order]
+        form0 = form
         form %= 3
         snap = (dict(src.b._succ), dict(src.b._ref), dict(src.b.vars))
 
@@ -1320,6 +1334,19 @@ class World:
             r = do()
             dst.hold(r, e.t, 1)
             r = None
+            if (form0 >> 3) & 1:
+                # the copy is released and collected in the target, other
+                # functions take the freed node numbers there, and the
+                # same function is copied again
+                dst.op_drop(len(dst.held) - 1)
+                gc.collect()
+                dst.api.collect_garbage()
+                dst.op_build((i * 2654435761 + d) & dst.F, form0 >> 4, 1)
+                dst.op_build((i * 40503 + 7 * d + 1) & dst.F, 0, 1)
+                r = do()
+                dst.hold(r, e.t, 1)
+                r = None
+                self.label('xcopy.again_after_target_collection')
             self.label('xcopy.done')
             self.nontrivial.add('xcopy')
             if [x for x in src.order if x in dst.order] != \
@@ -2151,11 +2178,18 @@ def run_and_collect(hist, out, shrink=True):
 
 # Hypothesis strategies ---------------------------------------------------
 def op_strategy(alphabet):
-    """alphabet: list of (name, [max_arg, ...], weight)."""
+    """alphabet: list of (name, [max_arg, ...], weight).
+
+    The name is drawn from a list in which each name occurs `weight`
+    times (`one_of` with a repeated strategy does not weight: it was
+    measured to draw the alternatives uniformly)."""
     from hypothesis import strategies as st
-    choices = []
+    args = {}
+    names = []
+    # generation is biased towards the first element: make it `build`
+    alphabet = sorted(alphabet, key=lambda x: x[0] != 'build')
     for name, maxes, weight in alphabet:
-        s = st.tuples(st.just(name),
-                      *[st.integers(0, m) for m in maxes]).map(list)
-        choices.extend([s] * weight)
-    return st.one_of(*choices)
+        args[name] = st.tuples(
+            st.just(name), *[st.integers(0, m) for m in maxes]).map(list)
+        names.extend([name] * weight)
+    return st.sampled_from(names).flatmap(lambda nm_: args[nm_])
